@@ -1078,6 +1078,10 @@ namespace awkward {
         convert_deep = true;
       }
 
+      // Turning the result back into regular lists is a nicety: where the reduced
+      // lists are not of equal length (an empty group above this node), the
+      // variable-length result stands.
+      try {
       if (convert_deep) {
         if (ListOffsetArray64* raw1 = dynamic_cast<ListOffsetArray64*>(out.get())) {
           if (ListOffsetArray64* raw2 = dynamic_cast<ListOffsetArray64*>(raw1->content().get())) {
@@ -1118,6 +1122,9 @@ namespace awkward {
         else if (ListArray64* raw1 = dynamic_cast<ListArray64*>(out.get())) {
           out = raw1->toRegularArray();
         }
+      }
+      }
+      catch (std::invalid_argument&) {
       }
     }
 
